@@ -45,6 +45,11 @@ CHECKS = {
         text="Every abstract string over the Python sub-alphabets (numbers, operator runs, string prefix/quote/body classes, indentation with spaces/tabs/form feeds/CR, comments, continuations) up to a bound, the C01 program space in several layouts, the corpus and its layout variants are tokenized by both tokenizers; for every text in the domain TLC validates the reduced stream pair against TokAgree.tla (types in order; text and coordinates of NAME/NUMBER/STRING/OP; structural tokens by sequence position).",
         note="Domain (stated in DESIGN 5/C09): CPython's tokenize accepts without ERRORTOKEN, NUMBER tokens are valid literals, no '<>' , no xonsh-only lexeme, no f-string (C10). Four known findings (lone CR, unbalanced closer, continuation-only line, continued comment at EOF).",
         ref="5/C09"),
+    "C10": dict(
+        technique="TLC enumeration of f-string literals from FString.tla -> real tokenizer/parser vs CPython; token-stream pairs (TokAgree.tla) and tree pairs (AstEq.tla) trace-validated by TLC",
+        text="FString.tla enumerates prefix (8) x quote (4) x sequences of 50 items (literal-part classes and replacement-field forms incl. conversions, '=', specs, nested fields, nested f-strings, lambda/dict/walrus, multi-line fields) x adjacent-literal concatenations; every f-string of the corpus / stdlib sample is added. For every literal CPython accepts, TLC validates the reduced token-stream pair and the flattened tree pair (with spans).",
+        note="CPython 3.12.1 is the oracle. Nine known findings by family; a difference is attributed to one only if the same literal with that feature removed (harness/fsreduce.py) agrees completely in tokens and tree, otherwise it is a violation.",
+        ref="5/C10"),
     "C14": dict(
         technique="TLC enumeration of statement sequences from StmtSeq.tla -> composition law checked on the real parser; tree pairs (whole vs shifted parts) trace-validated by TLC (AstEq.tla)",
         text="StmtSeq.tla lists 55 complete statement forms (Python simple/compound, multi-line tokens, comment/blank lines, every xonsh statement form incl. empty macros and path-literal concatenations); TLC enumerates every sequence of up to 2 (all kinds) / 3 (xonsh-heavy subset) kinds in quick, 3 / 4 in thorough; the body of the concatenation must equal the bodies of the parts with shifted line numbers, positions included.",
